@@ -37,18 +37,8 @@ def stereo_snap(m):
         elif n in sal:
             f, l = _subs(m, None, sal[n])
             al[n] = bool(m._translate_allene_sign(n, min(f), min(l)))
-    centers = m._stereo_cis_trans_centers
-    for path, env in m.stereogenic_cumulenes.items():
-        if len(path) % 2:
-            continue
-        i, j = centers[path[0]]
-        if m._bonds[i][j].stereo is None:
-            continue
-        f, l = _subs(m, path, env)
-        a, b, fa, fb = path[0], path[-1], min(f), min(l)
-        if a > b:
-            a, b, fa, fb = b, a, fb, fa
-        ct[f'{a}-{b}'] = bool(m._translate_cis_trans_sign(a, b, fa, fb))
+    for key, a, b, fa, fb, bond in _ct_sites(m):
+        ct[key] = bool(m._translate_cis_trans_sign(a, b, fa, fb))
     return {'th': th, 'al': al, 'ct': ct}
 
 
@@ -68,6 +58,62 @@ def explicit_h_on_stereocentre(m):
             t = m._stereo_cis_trans_terminals.get(n)
             cent.update(t or (n, k))
     return any(atoms[x].atomic_number == 1 for n in cent for x in bonds[n])
+
+
+def _ct_sites(m):
+    """labelled double-bond systems: (key, a, b, fa, fb, centre bond) with a < b, fa / fb the smallest-numbered substituents"""
+    centers = m._stereo_cis_trans_centers
+    for path, env in m.stereogenic_cumulenes.items():
+        if len(path) % 2:
+            continue
+        i, j = centers[path[0]]
+        bond = m._bonds[i][j]
+        if bond.stereo is None:
+            continue
+        f, l = _subs(m, path, env)
+        a, b, fa, fb = path[0], path[-1], min(f), min(l)
+        if a > b:
+            a, b, fa, fb = b, a, fb, fa
+        yield f'{a}-{b}', a, b, fa, fb, bond
+
+
+def cis_geom(m, a, b, fa, fb, eps=2e-3):
+    """independent plane geometry on the coordinates as a file carries them (4 decimals): True when substituent fa of a and
+    substituent fb of b lie on the same side of the axis a -> b (cis), False on opposite sides, None when undefined"""
+    P = {n: (round(m._atoms[n].x, 4), round(m._atoms[n].y, 4)) for n in (a, b, fa, fb)}
+    dx, dy = P[b][0] - P[a][0], P[b][1] - P[a][1]
+    s1 = dx * (P[fa][1] - P[a][1]) - dy * (P[fa][0] - P[a][0])
+    s2 = dx * (P[fb][1] - P[b][1]) - dy * (P[fb][0] - P[b][0])
+    if abs(s1) < eps or abs(s2) < eps:
+        return None
+    return (s1 > 0) == (s2 > 0)
+
+
+def make_consistent(m):
+    """the file carries double-bond configuration only through coordinates, so the claimed domain is molecules whose cis/trans
+    labels agree with their coordinates.  A label contradicting the layout (clean2d ignores labels) is flipped: the object then
+    is the stereoisomer its depiction shows.  returns (flipped, undefined)"""
+    flipped = undefined = 0
+    for key, a, b, fa, fb, bond in list(_ct_sites(m)):
+        g = cis_geom(m, a, b, fa, fb)
+        if g is None:
+            undefined += 1
+        elif g != bool(m._translate_cis_trans_sign(a, b, fa, fb)):
+            bond._stereo = not bond._stereo
+            flipped += 1
+    if flipped:
+        m.flush_cache()
+    return flipped, undefined
+
+
+def ct_geometry_mismatch(o, src=None):
+    """labels of the read molecule o that contradict the geometry (coordinates of src or of o itself)"""
+    bad = {}
+    for key, a, b, fa, fb, bond in _ct_sites(o):
+        g = cis_geom(src or o, a, b, fa, fb)
+        if g is not None and g != bool(o._translate_cis_trans_sign(a, b, fa, fb)):
+            bad[key] = g
+    return bad
 
 
 def has_labels(m):
